@@ -8,43 +8,43 @@ BASE_NOTE = ("Held on the generated cases only (no absence claim). Trusts propte
 
 CHECKS = {
  "C01": ("e1_layout", "exploration",
-         "property-based testing (proptest, seeded): generated builder histories, validity predicate (pairwise disjointness) after every close",
+         "property-based testing (proptest, seeded): generated builder histories, validity predicate (pairwise disjointness) after every close; thorough tier adds coverage-guided fuzzing (libFuzzer, ASan) with the same oracle",
          "Seeded random search over builder histories (all four strategies, per-variant mixtures, ZST, odd sizes, alignment up to 16, reused names) with an explicit disjointness oracle checked after every close and on the built definition; failures are shrunk to a minimal history.",
          BASE_NOTE + " Shapes are size = k*align with power-of-two alignment 1..16."),
  "C02": ("e1_layout + e3_gencrate", "exploration",
-         "property-based testing (proptest): validity predicates (alignment, containment, address order) on generated histories, incl. emitted constants and the compiled MAX_SIZE / align_of",
+         "property-based testing (proptest): validity predicates (alignment, containment, address order) on generated histories, incl. emitted constants and the compiled MAX_SIZE / align_of; thorough tier adds coverage-guided fuzzing (libFuzzer, ASan) with the same oracle",
          "Per variant after every close: alignment, containment in max_size() and in the emitted MAX_SIZE, record alignment multiple (emitted repr(align) and compiled align_of), strict address order of the list; compiled modules: size_of >= CAP, MAX_SIZE covers every field.",
          BASE_NOTE),
  "C03": ("e1_layout + e3_gencrate", "exploration",
-         "property-based testing (proptest): offset snapshots compared across closes (history invariant); compiled size_of/align_of equality of all generated record types",
+         "property-based testing (proptest): offset snapshots compared across closes (history invariant); compiled size_of/align_of equality of all generated record types; thorough tier adds coverage-guided fuzzing (libFuzzer, ASan) with the same oracle",
          "(a) offset of every datum snapshotted at its close and compared at every later close; (b) on compiled generated modules (release build) size_of/align_of of RecordUninitialized and every CappedRecordN<CAP>, CAP = MAX_SIZE and MAX_SIZE+5, pairwise equal, and in-place vector conversion keeps the buffer.",
          BASE_NOTE),
  "C04": ("e2_genstage + e3_gencrate", "exploration",
-         "model-based property testing (proptest) of compiled generated code: operation sequences vs a reference model of field values, debug+hooks and release builds",
+         "model-based property testing (proptest) of compiled generated code: operation sequences vs a reference model of field values, debug+hooks and release builds; thorough tier adds coverage-guided fuzzing (libFuzzer, ASan) with the same oracle",
          "Two-level search: generated definitions compiled from truc's output, generated operation sequences (constructors, accessors on heap/stack/vector elements, moves, unpack, drop) compared with a model on all fields after every write.",
          BASE_NOTE + " One LLVM version observed for the release build."),
  "C05": ("e2_genstage + e3_gencrate", "exploration",
-         "model-based property testing (proptest) of compiled generated code: conversion forms and chains vs model transitions",
+         "model-based property testing (proptest) of compiled generated code: conversion forms and chains vs model transitions; thorough tier adds coverage-guided fuzzing (libFuzzer, ASan) with the same oracle",
          "All four conversion forms, chains to the last variant and in-place vector conversions on generated definitions; carried-over, added and returned removed values compared with the model; byte-reusing conversions measured.",
          BASE_NOTE),
  "C06": ("e2_genstage + e3_gencrate", "exploration",
-         "property-based testing (proptest) with a creation/destruction ledger of instrumented field types over whole-life operation sequences",
+         "property-based testing (proptest) with a creation/destruction ledger of instrumented field types over whole-life operation sequences; thorough tier adds coverage-guided fuzzing (libFuzzer, ASan) with the same oracle",
          "Ledger of token values (live set == values owned by records, no double destruction, zero-size droppable count) checked after every operation of whole-life sequences incl. conversions, failed vector conversions, clone and serde operations.",
          BASE_NOTE + " Instrumented token types stand for user types with the same size/alignment/drop behaviour."),
  "C07": ("e2_genstage + e3_gencrate (verif-hooks)", "exploration",
-         "property-based testing (proptest) with runtime instrumentation (feature verif-hooks): bounds, alignment at the actual address, per-byte ownership shadow",
+         "property-based testing (proptest) with runtime instrumentation (feature verif-hooks): bounds, alignment at the actual address, per-byte ownership shadow; thorough tier adds coverage-guided fuzzing (libFuzzer, ASan) with the same oracle",
          "Every read/write/get/get_mut of generated code on generated sequences is checked by the hooks in debug and release builds, CAP = MAX_SIZE and MAX_SIZE+5, heap/stack/vector placements.",
          BASE_NOTE + " Whether a store uses alignment-requiring means is stated by the hook call next to the store; Miri is the independent oracle for that (thorough tier)."),
  "C08": ("e4_vecconv", "exploration",
-         "model-based property testing (proptest) + exhaustive small-scope enumeration: reference filter_map model with previous output, converter log, buffer identity",
+         "model-based property testing (proptest) + exhaustive small-scope enumeration: reference filter_map model with previous output, converter log, buffer identity; thorough tier adds coverage-guided fuzzing (libFuzzer, ASan) with the same oracle",
          "10 element type pairs (plain, owned, zero-size, large, over-aligned, asymmetric drop glue), all masks for small lengths exhaustively and random scenarios up to length 80, debug and release.",
          BASE_NOTE),
  "C09": ("e4_vecconv", "fault_enumeration",
-         "fault injection enumerated over every failure position x kind (Err, panic at 3 phases) x entry point for small lengths, random beyond; ledger + allocation watch + payload identity",
+         "fault injection enumerated over every failure position x kind (Err, panic at 3 phases) x entry point for small lengths, random beyond; ledger + allocation watch + payload identity; thorough tier adds coverage-guided fuzzing (libFuzzer, ASan) with the same oracle",
          "Every failure position x 7 (kind, entry) combinations x all masks of preceding elements for lengths <= 8 (quick) enumerated; ledger balance, allocation release, call count and identity of the error / panic payload.",
          BASE_NOTE + " Allocation release is observed through a wrapping global allocator."),
  "C10": ("e4_vecconv", "exploration",
-         "exhaustive enumeration of a type-pair matrix x small lengths + proptest for longer vectors: must-panic oracle, converter call count, ledger",
+         "exhaustive enumeration of a type-pair matrix x small lengths + proptest for longer vectors: must-panic oracle, converter call count, ledger; thorough tier adds coverage-guided fuzzing (libFuzzer, ASan) with the same oracle",
          "72 ordered pairs of 9 element types (sizes 0..16 x alignments 1..16), lengths 0..40, both entry points.",
          BASE_NOTE),
  "C11": ("e5_probes", "exploration",
@@ -52,11 +52,11 @@ CHECKS = {
          "Generated definitions with one datum's size/alignment/uninit flag perturbed through each entry point; rustc must reject; control must compile; failing histories are delta-debugged.",
          BASE_NOTE + " Trusts rustc 1.96 as the oracle."),
  "C12": ("e1_layout", "exploration",
-         "model-based property testing (proptest): adversarial request sequences against a reference model of the generic and native builders",
+         "model-based property testing (proptest): adversarial request sequences against a reference model of the generic and native builders; thorough tier adds coverage-guided fuzzing (libFuzzer, ASan) with the same oracle",
          "Every request's Ok/Err, observable state after every request, unchanged state after every rejection, fresh ids, no-op close, build panic with pending changes.",
          BASE_NOTE + " Error message texts are not compared."),
  "C13": ("e1_layout + e5_probes", "exploration",
-         "property-based testing (proptest): no-panic oracle on generated histories; generated modules x 4 fragment selections type-checked by rustc",
+         "property-based testing (proptest): no-panic oracle on generated histories; generated modules x 4 fragment selections type-checked by rustc; thorough tier adds coverage-guided fuzzing (libFuzzer, ASan) with the same oracle",
          "(a) to_string/max_size/max_type_align/generate never panic on accepted definitions; (b) every generated module over the real field-type menu compiles with every fragment selection.",
          BASE_NOTE + " Trusts rustc 1.96 as the oracle for (b)."),
  "C14": ("e5_probes", "exploration",
@@ -68,7 +68,7 @@ CHECKS = {
          "Round trips through three formats, element order, and truncation / undecodable element / extra element at generated positions must be rejected without panic and with the ledger balanced.",
          BASE_NOTE),
  "C16": ("e2_genstage + e3_gencrate", "exploration",
-         "property-based testing (proptest) of compiled generated code: clone/clone_from vs model with an injected panic at the n-th field clone (clone fuse), ledger",
+         "property-based testing (proptest) of compiled generated code: clone/clone_from vs model with an injected panic at the n-th field clone (clone fuse), ledger; thorough tier adds coverage-guided fuzzing (libFuzzer, ASan) with the same oracle",
          "Clone equality and independence, clone_from, and a panic injected at every field clone position reachable by the fuse; ledger balance.",
          BASE_NOTE),
  "C17": ("e5_probes", "exploration",
@@ -84,7 +84,7 @@ CHECKS = {
          "Offsets, Display and generated bytes compared between two replays in-process and between parent and two child processes with different hash seeds.",
          BASE_NOTE),
  "C20": ("e1_layout", "exploration",
-         "property-based testing (proptest): generated source definitions replayed into native/generic builders; bijection + multiset oracle",
+         "property-based testing (proptest): generated source definitions replayed into native/generic builders; bijection + multiset oracle; thorough tier adds coverage-guided fuzzing (libFuzzer, ASan) with the same oracle",
          "Map order/size, per-pair multisets of (name, type info, uninit), functional and injective datum correspondence; names reused across variants.",
          BASE_NOTE),
 }
@@ -120,7 +120,9 @@ def main():
             {"name": "e1_layout", "path": "/verif/engine/e1_layout", "serves_properties": ["C01", "C02", "C03", "C12", "C13", "C18", "C19", "C20"], "kind_free_text": "in-process proptest on truc's builder / resolver / generator"},
             {"name": "e2_genstage + e3_gencrate", "path": "/verif/engine/e3_gencrate", "serves_properties": ["C02", "C03", "C04", "C05", "C06", "C07", "C15", "C16"], "kind_free_text": "generated definitions compiled from truc's output + proptest operation sequences vs reference model (vdrive), 3 build configurations"},
             {"name": "e4_vecconv", "path": "/verif/engine/e4_vecconv", "serves_properties": ["C08", "C09", "C10"], "kind_free_text": "proptest + exhaustive enumeration on the in-place vector conversion"},
-            {"name": "e5_probes", "path": "/verif/engine/e5_probes", "serves_properties": ["C11", "C13", "C14", "C17"], "kind_free_text": "generated programs judged by rustc"},
+            {"name": "e5_probes", "path": "/verif/engine/e5_probes", "serves_properties": ["C03", "C11", "C13", "C14", "C17"], "kind_free_text": "generated programs judged by rustc (const assertions, must-reject / must-compile pairs, auto-trait probes, type-equality probes)"},
+            {"name": "fuzz (cargo-fuzz)", "path": "/verif/engine/fuzz", "serves_properties": ["C01", "C02", "C03", "C04", "C05", "C06", "C07", "C08", "C09", "C10", "C12", "C13", "C16", "C20"], "kind_free_text": "thorough tier: libFuzzer + AddressSanitizer targets layout / vecconv / gendrive over total byte decoders of the same case grammars, property oracle inside the target"},
+            {"name": "miri tier", "path": "/verif/engine/e3_gencrate", "serves_properties": ["C07"], "kind_free_text": "pre-generated operation sequences replayed under cargo miri (symbolic alignment, strict provenance)"},
         ],
         "checks": checks,
         "not_applicable": [{"property_id": k, "reason": v} for k, v in sorted(NOT_APPLICABLE.items())],
